@@ -4,9 +4,11 @@
 // Accessors.tla.  Every record carries a reply tree and what the specification predicts for it:
 //
 //	C15  rules    outcome class -> accessors (V value, N Nil, R *RedisError with the reply's text, P parse error,
-//	              VE value or error, A anything but a panic, T the transport error of the RedisResult)
+//	              VE value or error, A anything but a panic, T the transport error of the RedisResult,
+//	              X an error of whatever kind - family comp: one malformed component of a structured reply)
 //	     classify expected result of every RedisError classifier for the error-text grammar
-//	C16  exp      accessor -> the exact Go value it must return
+//	C16  exp      accessor -> the exact Go value it must return ({"Fail_":true}: an error; {"Dec_":text}: the integer
+//	              with that decimal text; {"F2_":[s,e]}: s*2^e; {"Inf_":s}, {"NaN_":true})
 //
 // The tree is encoded to RESP bytes (fakeredis.Value.Encode for everything the independent codec can express; the
 // streamed, attribute and RESP2-null framings by hand), decoded with the real decoder (rueidis.VerifDecode) and
@@ -31,6 +33,7 @@ import (
 	"fmt"
 	"io"
 	"os"
+	"math"
 	"reflect"
 	"sort"
 	"strconv"
@@ -193,6 +196,8 @@ func encode(b []byte, n Node) []byte {
 	switch n.T {
 	case "nullbulk":
 		return append(b, "$-1\r\n"...)
+	case "intx": // an integer reply given by its decimal text (beyond TLC's 32 bits)
+		return append(append(append(b, ':'), n.S...), '\r', '\n')
 	case "nullarr":
 		return append(b, "*-1\r\n"...)
 	case "end":
@@ -343,6 +348,8 @@ func allowed(expected, observed string) bool {
 		return observed != "panic"
 	case "VE":
 		return observed != "panic"
+	case "X": // an error of whatever kind: not a value, not a panic
+		return observed == "N" || observed == "R" || observed == "P" || observed == "E"
 	}
 	return expected == observed
 }
@@ -568,6 +575,43 @@ func match(exp, act any, path string) string {
 			}
 			return ""
 		}
+		if d, ok := e["Dec_"]; ok && len(e) == 1 { // the integer whose decimal text is d
+			var got string
+			switch a := act.(type) {
+			case int64:
+				got = strconv.FormatInt(a, 10)
+			case uint64:
+				got = strconv.FormatUint(a, 10)
+			default:
+				return fmt.Sprintf("%s: got %v, expected the integer %v", path, show(act), d)
+			}
+			if got != d.(string) {
+				return fmt.Sprintf("%s: got %s, expected %v", path, got, d)
+			}
+			return ""
+		}
+		if f, ok := e["F2_"]; ok && len(e) == 1 { // sign * 2^exp
+			se := f.([]any)
+			sg, _ := numOf(se[0])
+			ex, _ := numOf(se[1])
+			if a, ok := act.(float64); !ok || a != math.Ldexp(float64(sg), int(ex)) {
+				return fmt.Sprintf("%s: got %v, expected the float %d*2^%d", path, show(act), sg, ex)
+			}
+			return ""
+		}
+		if f, ok := e["Inf_"]; ok && len(e) == 1 {
+			sg, _ := numOf(f)
+			if a, ok := act.(float64); !ok || !math.IsInf(a, int(sg)) {
+				return fmt.Sprintf("%s: got %v, expected %d*infinity", path, show(act), sg)
+			}
+			return ""
+		}
+		if _, ok := e["NaN_"]; ok && len(e) == 1 {
+			if a, ok := act.(float64); !ok || !math.IsNaN(a) {
+				return fmt.Sprintf("%s: got %v, expected NaN", path, show(act))
+			}
+			return ""
+		}
 		if mn, ok := act.(msgNode); ok {
 			return matchNode(e, mn.m, path)
 		}
@@ -743,6 +787,13 @@ func (r *runner) runCase(c *Case) {
 		}
 		used[name] = true
 		sig := fmt.Sprintf("%s-wrong-%s-%s", name, c.Cls, proto)
+		if wm, isMap := want.(map[string]any); isMap && len(wm) == 1 && wm["Fail_"] != nil { // the specification predicts an error
+			if o.err == nil {
+				r.violate(name, sig, fmt.Sprintf("%s on the %s reply %s: returned %s without an error; the specification predicts an error",
+					full, strings.ToUpper(proto), c.Tree, show(canonOuts(name, o.outs))), c, wire)
+			}
+			return
+		}
 		if o.err != nil {
 			r.violate(name, sig, fmt.Sprintf("%s on the %s reply %s: unexpected error %v; expected %s",
 				full, strings.ToUpper(proto), c.Tree, o.err, mustJSON(want)), c, wire)
@@ -862,6 +913,19 @@ func mustJSON(v any) string {
 	return string(b)
 }
 
+// compPrio: within family comp the nil and the error component come first (their predicted classes N / R say most)
+func compPrio(c *Case) int {
+	switch {
+	case c.Fam != "comp":
+		return 0
+	case strings.HasSuffix(c.Cls, "-is-null"):
+		return 0
+	case strings.HasSuffix(c.Cls, "-is-error"):
+		return 1
+	}
+	return 2
+}
+
 func main() {
 	flag.Parse()
 	rep := &vh.Report{}
@@ -896,11 +960,14 @@ func main() {
 		cases = append(cases, &c)
 	}
 	// simplest shapes first, so that the listed signatures name the smallest failing shape of each accessor
-	rank := map[string]int{"leaf": 0, "errtext": 1, "neterr": 2, "flat": 3, "nest": 4, "mut": 5}
+	rank := map[string]int{"leaf": 0, "errtext": 1, "neterr": 2, "flat": 3, "nest": 4, "comp": 5, "mut": 6}
 	sort.SliceStable(cases, func(i, j int) bool {
 		a, b := cases[i], cases[j]
 		if rank[a.Fam] != rank[b.Fam] {
 			return rank[a.Fam] < rank[b.Fam]
+		}
+		if pa, pb := compPrio(a), compPrio(b); pa != pb {
+			return pa < pb
 		}
 		if sa, sb := size(a.Tree), size(b.Tree); sa != sb {
 			return sa < sb
